@@ -190,9 +190,10 @@ def check_C01(ctx):
     behs = corpus('store.ndjson') + behs
     nontrivial(ctx, behs)
     ctx.samples = [behs[len(behs) // 2][:8]]
-    selftest_binding(ctx, behs[-20:], [])
-    selftest_hooks(ctx, behs[-20:])
     ctx.traces += run_replays(ctx, 'C01', behs, ['-ballast', '24'], CLASSES, 'c01')
+    if not ctx.violations:
+        selftest_binding(ctx, behs[-20:], [])
+        selftest_hooks(ctx, behs[-20:])
     ctx.traces += edge_sweep(ctx, 'C01', behs)
     ctx.evaluations = ctx.traces
     write_evidence(ctx, 'model_checking',
@@ -281,9 +282,11 @@ def check_C08(ctx):
     nontrivial(ctx, behs)
     ctx.samples = [[{'a': s['a'], 'op': s['op'], 'seq': s['seq']} for s in behs[len(behs) // 2][:10]]]
     flags = ['-checkseq', '-checkwal']
-    selftest_seq(ctx, behs[-20:], flags)
-    selftest_hooks(ctx, behs[-20:])
     ctx.traces += run_replays(ctx, 'C08', behs, flags, CLASSES[:3], 'c08')
+    if not ctx.violations:
+        # (on a tree that already disagrees the self-tests have nothing to stand on: the disagreements are the verdict)
+        selftest_seq(ctx, behs[-20:], flags)
+        selftest_hooks(ctx, behs[-20:])
     gated_numbering(ctx)
     stress_numbering(ctx)
     stress_log_numbering(ctx)
